@@ -23,6 +23,12 @@ def plain_mark(m: Any) -> list:
 
 def plain(node: Any) -> dict:
     text = getattr(node, "text", None) if node.type.name == "text" else None
+    if node.type.name == "text" and not (isinstance(text, str) and text):
+        # a node of the text type without (non-empty) text is no document at all: every property that looks at a
+        # document the library returned reports it, instead of the harness tripping over it
+        from ..core import Violation
+
+        raise Violation("model:malformed-text-node", f"the library produced a text-typed node without text ({type(node).__name__}, text={text!r})")
     return {
         "t": node.type.name,
         "a": copy.deepcopy(node.attrs),
